@@ -1,6 +1,8 @@
 """C20 - the configured evolvent density is honoured.
 
-Exhaustive over the configuration lattice evolventDensity 2..12 x N 2..5 x boxes B0..B3 x objectives:
+Exhaustive over the configuration lattice evolventDensity 2..12 x N 2..5 x boxes B0..B3 x objectives,
+arranged as histories (the densities in ascending and descending order inside one process, solvers solved
+one after the other or constructed ahead) so that a density left over from an earlier solver shows:
 every logged evaluation point must lie on the cell-centre grid of the configured density.  The test is
 two-sided by arithmetic: centres of density m' are odd multiples of 2^-(m'+1), so a curve built with
 any other density (finer or coarser) puts its very first point (the image of x = 0.5) off the grid."""
@@ -15,16 +17,16 @@ PROPERTY = "C20"
 LEVEL = "exploration"
 
 
-def case(task):
-    N, m, bx, env, trials = task["N"], task["m"], task["box"], task["env"], task["trials"]
+def one(N, m, bx, env, trials, run=None):
+    """one Solve with density m; returns (messages, points logged, distinct cells)"""
     cfg = dict(N=N, box=bx, r=2.0, eps=0.0, itersLimit=trials, density=m, env=env)
-    f = make_env(env, cfg)
-    run = tree.make_run(cfg, f)
+    if run is None:
+        run = tree.make_run(cfg, make_env(env, cfg))
     msgs = []
     try:
         run.solve()
     except BaseException as e:
-        return [f"Solve raised {type(e).__name__}: {e}"], 0, 0
+        return [f"N={N} evolventDensity={m} box={bx} {env}: Solve raised {type(e).__name__}: {e}"], 0, 0
     lo, up = box(bx, N)
     lo_a = np.array(lo)
     w = np.array(up) - lo_a
@@ -40,30 +42,59 @@ def case(task):
     return msgs, len(run.problem.log), len(cells)
 
 
+def history(task):
+    """A history of solver constructions in one process: the densities of task['ms'] in that order for a fixed
+    (N, box, objective).  mode 'seq': construct and solve one after the other; mode 'pair': construct each
+    solver before the previous one is solved (two live solvers with different densities)."""
+    N, bx, env, trials, ms, mode = task["N"], task["box"], task["env"], task["trials"], task["ms"], task.get("mode", "seq")
+    msgs, pts, multi, done = [], 0, 0, 0
+    mk = lambda m: tree.make_run(dict(N=N, box=bx, r=2.0, eps=0.0, itersLimit=trials, density=m, env=env),
+                                 make_env(env, dict(N=N, box=bx)))
+    pending = None
+    seq = list(ms)
+    for i, m in enumerate(seq):
+        if mode == "pair":
+            cur = pending if pending is not None else mk(m)
+            pending = mk(seq[i + 1]) if i + 1 < len(seq) else None
+            mm, n, nc = one(N, m, bx, env, trials, run=cur)
+        else:
+            mm, n, nc = one(N, m, bx, env, trials)
+        pts += n
+        multi += nc > 3
+        done += 1
+        if mm:
+            msgs += [f"{x} (history: densities {seq[:i + 1]} in one process, mode {mode})" for x in mm]
+            break
+    return msgs, pts, multi, done
+
+
 def run(ctx):
     res = Result()
     th = ctx.thorough
     tasks = []
+    up_, down = list(range(2, 13)), list(range(12, 1, -1))
     for N in (2, 3, 4, 5):
-        for m in range(2, 13):
-            for bx in BOXES:
-                for env in ("lin", "abs13", "const"):
-                    tasks.append(dict(N=N, m=m, box=bx, env=env, trials=200 if th else 30))
-    out = pmap(case, tasks, chunksize=8)
-    pts = 0
-    multi = 0
-    for t, (msgs, n, ncell) in zip(tasks, out):
+        for bx in BOXES:
+            for env in ("lin", "abs13", "const"):
+                for ms in (up_, down):
+                    for mode in ("seq", "pair"):
+                        tasks.append(dict(N=N, box=bx, env=env, trials=200 if th else 30, ms=ms, mode=mode))
+    out = pmap(history, tasks, chunksize=2)
+    pts = multi = solves = 0
+    for t, (msgs, n, mu, done) in zip(tasks, out):
         pts += n
-        multi += ncell > 3
+        multi += mu
+        solves += done
         for msg in msgs:
-            res.add_violation(dict(driver="lattice", **t, message=msg, sig={}))
+            res.add_violation(dict(driver="history", **t, message=msg, sig={}))
     res.cov = dict(
-        evaluations=len(tasks), distinct_nontrivial=multi,
-        rule="one Solve per (N in 2..5, evolventDensity in 2..12, box, objective) with every logged evaluation point tested "
-             "for membership in the density-m centre grid; non-trivial = configurations whose trials visited more than 3 "
-             "distinct cells",
-        exhaustive=True, points_checked=pts, configurations=len(tasks),
-        states=len(tasks), transitions=pts, traces_validated_against_impl=len(tasks),
+        evaluations=solves, distinct_nontrivial=multi,
+        rule="histories = for every (N in 2..5, box, objective) the densities 2..12 ascending and descending, solved one after "
+             "the other in one process and with the next solver constructed before the previous one is solved; every "
+             "logged evaluation point is tested for membership in the density-m centre grid of its own solver; "
+             "non-trivial = solves whose trials visited more than 3 distinct cells",
+        exhaustive=True, points_checked=pts, configurations=solves, histories=len(tasks),
+        states=solves, transitions=pts, traces_validated_against_impl=len(tasks),
         samples=tasks[:1] + tasks[-1:],
     )
     res.assumptions = ["grid membership judged to 1e-6 of a cell (box transform rounding)"]
@@ -71,4 +102,6 @@ def run(ctx):
 
 
 def replay(rec):
-    return case(rec)[0]
+    if "ms" in rec:
+        return history(rec)[0]
+    return one(rec["N"], rec["m"], rec["box"], rec["env"], rec["trials"])[0]
